@@ -182,6 +182,24 @@ Proof.
     cbn [negb orb]. apply at_mostb_of. apply Hall; assumption.
 Qed.
 
+Lemma split_quoted_nonempty s : forall cur q e l, split_quoted s cur q e = Some l -> l <> [].
+Proof.
+  induction s as [|c tl IH]; intros cur q e l; cbn [split_quoted].
+  - destruct q; [discriminate|]. intro H. injection H as <-. discriminate.
+  - destruct q.
+    + destruct e; [apply IH|]. destruct (c =? bsl)%N; [apply IH|]. destruct (c =? dq)%N; apply IH.
+    + destruct (c =? dq)%N; [apply IH|]. destruct (c =? comma)%N; [|apply IH].
+      destruct (split_quoted tl [] false false); [|discriminate]. intro H. injection H as <-. discriminate.
+Qed.
+
+Lemma split_media_ranges_nonempty f h : split_media_ranges f h <> [].
+Proof.
+  unfold split_media_ranges. destruct f; [|apply split_chr_nonempty].
+  destruct (negb (char_in dq h)); [apply split_chr_nonempty|].
+  destruct (split_quoted h [] false false) eqn:E; [|apply split_chr_nonempty].
+  eapply split_quoted_nonempty. exact E.
+Qed.
+
 Theorem quality_oracle_sound o mt h q :
   quality o mt h = Ok q -> quality_ok o mt h q = 1%N.
 Proof.
@@ -189,8 +207,8 @@ Proof.
   destruct (parse_media_ranges o h) as [rs|e] eqn:E; [|discriminate].
   intro H. injection H as <-.
   assert (NE : rs <> []).
-  { unfold parse_media_ranges in E. pose proof (split_chr_nonempty comma h) as S.
-    destruct (split_chr comma h) as [|x tl]; [contradiction|]. cbn [map_res] in E.
+  { unfold parse_media_ranges in E. pose proof (split_media_ranges_nonempty (c_fixed o) h) as S.
+    destruct (split_media_ranges (c_fixed o) h) as [|x tl]; [contradiction|]. cbn [map_res] in E.
     destruct (parse_media_range o x); [|discriminate]. destruct (map_res (parse_media_range o) tl); [|discriminate].
     injection E as <-. discriminate. }
   rewrite (quality_relb_sound t rs _ (quality_spec t rs NE)). reflexivity.
@@ -312,11 +330,11 @@ Theorem quality_errors_documented o mt h e :
   (e = EInvalidMediaType /\ parse_media_type mt = None) \/ e = EInvalidMediaRange \/ e = ENeedOracle.
 Proof.
   unfold quality. destruct (parse_media_type mt) as [t|]; [|intro H; injection H as <-; left; split; reflexivity].
-  unfold parse_media_ranges. generalize (split_chr comma h). intro l.
+  unfold parse_media_ranges. generalize (split_media_ranges (c_fixed o) h). intro l.
   induction l as [|x tl IH]; cbn [map_res]; [discriminate|].
   unfold parse_media_range at 1. destruct (parse_media_type x) as [tx|].
   - destruct (pget (t_params tx) s_q) as [qs|].
-    + destruct (parse_q o qs).
+    + destruct (parse_q (c_oracle o) qs).
       * destruct (map_res (parse_media_range o) tl); [discriminate|]. exact IH.
       * intro H. injection H as <-. right. left. reflexivity.
       * intro H. injection H as <-. right. right. reflexivity.
